@@ -294,11 +294,15 @@ func c01AllMatchesReplaced(r *an.Run) {
 	if f == nil {
 		return
 	}
-	ils := findIndexLoops(f, isLenOfPath("fd.Matches"))
+	ils := findIndexLoopsGroup(f, isLenOfPathIn(f, "fd.Matches"))
 	if !r.Check(len(ils) == 1, short(f)+"|loop", f.Pos(), "FileReplacer.Replace has one loop over all recorded matches fd.Matches (found %d)", len(ils)) {
 		return
 	}
 	il := ils[0]
+	if g := il.Loop.Header.Parent(); g != f {
+		// the loop lives in a helper: a failure there must fail Replace
+		r.Check(helperFailurePropagates(f, g), short(f)+"|helper-failure-propagates", f.Pos(), "a failure of %s makes FileReplacer.Replace fail", short(g))
+	}
 	calls := callsInLoop(il.Loop, replReplace)
 	if !r.Check(len(calls) == 1, short(f)+"|replace-call", il.If.Pos(), "the loop calls the node replacer once per match (found %d call(s))", len(calls)) {
 		return
@@ -353,6 +357,16 @@ func elemOf(v ssa.Value, path string, idx ssa.Value) bool {
 	}
 	ia, ok := u.X.(*ssa.IndexAddr)
 	return ok && ia.Index == idx && an.Path(ia.X) == path
+}
+
+// elemOfIn is elemOf with the path seen from anchor.
+func elemOfIn(anchor *ssa.Function, v ssa.Value, path string, idx ssa.Value) bool {
+	u, ok := v.(*ssa.UnOp)
+	if !ok || u.Op != token.MUL {
+		return false
+	}
+	ia, ok := u.X.(*ssa.IndexAddr)
+	return ok && ia.Index == idx && an.PathIn(ia.X, anchor) == path
 }
 
 // elemAccess recognises v as "element idx of base": a load of base[idx], or
